@@ -222,6 +222,34 @@ theorem close_spec (s : Sess) :
   · rename_i h; simp [h]
   · split <;> simp
 
+/-- what the server's processing of the open request queues: the open-session response (or
+    nothing), with the next sequence number, no payload -/
+theorem acceptOpen_spec (s : Sess) (p : Bytes) :
+    (acceptOpen s p).1.map (·.seq) = List.range' s.nextSend (acceptOpen s p).1.length ∧
+    (acceptOpen s p).2.nextSend = s.nextSend + (acceptOpen s p).1.length ∧
+    (∀ g ∈ (acceptOpen s p).1, g = ⟨.openResp, s.nextSend, 0, none, []⟩) ∧
+    (s.open → (acceptOpen s p).2.open) ∧
+    (s.st = .closed → acceptOpen s p = ([], s)) := by
+  unfold acceptOpen
+  by_cases h0 : s.nextRecv = 0
+  · rw [if_pos h0]
+    unfold input
+    by_cases hc : s.st = .closed
+    · rw [if_pos hc]
+      refine ⟨by simp, by simp, by simp, fun h => h, fun _ => rfl⟩
+    · rw [if_neg hc]
+      have hne : ¬ (0 : Nat) ≠ s.nextRecv := fun h => h h0.symm
+      simp only [hne, if_false]
+      by_cases hsrv : s.isClient = false ∧ True ∧ s.st = .attached
+      · rw [if_pos hsrv]
+        refine ⟨by simp, by simp, by simp, ?_, fun h => absurd h hc⟩
+        intro ho
+        exact ⟨ho.1, Or.inr rfl⟩
+      · rw [if_neg hsrv]
+        refine ⟨by simp, by simp, by simp, fun h => h, fun h => absurd h hc⟩
+  · rw [if_neg h0]
+    refine ⟨by simp, by simp, by simp, fun h => h, fun _ => rfl⟩
+
 /-- **What a program of Write / Close calls queues**: the payloads concatenate to exactly the bytes
     of the calls that returned success, the sequence numbers are consecutive, and the session's
     counter ends where the list ends. -/
@@ -251,17 +279,36 @@ theorem run_spec (s : Sess) (ops : List Op) :
       refine ⟨by rw [i1, c4]; rfl, ?_, ?_⟩
       · rw [c3, i2, c2, List.range'_append_1]
       · rw [i3, c2]; omega
+    | accept p =>
+      obtain ⟨i1, i2, i3⟩ := ih (acceptOpen s p).2
+      obtain ⟨a1, a2, a3, _, _⟩ := acceptOpen_spec s p
+      have a4 : ((acceptOpen s p).1.map (·.payload)).flatten = [] := by
+        rw [List.flatten_eq_nil_iff]
+        intro x hx
+        rw [List.mem_map] at hx
+        obtain ⟨g, hg, rfl⟩ := hx
+        rw [a3 g hg]
+      simp only [run, accepted, List.map_append, List.flatten_append, List.length_append]
+      refine ⟨by rw [i1, a4]; rfl, ?_, ?_⟩
+      · rw [a1, i2, a2, List.range'_append_1]
+      · rw [i3, a2]; omega
 
-/-- once a session is not open nothing more is queued -/
-theorem run_closed (s : Sess) (ops : List Op) (h : ¬ s.open) (hc : s.closeRequested = true) : (run s ops).1 = [] := by
+/-- once a session is closed nothing more is queued -/
+theorem run_closed (s : Sess) (ops : List Op) (h : s.st = .closed) (hc : s.closeRequested = true) : (run s ops).1 = [] := by
+  have hno : ¬ s.open := by
+    intro ho
+    rcases ho.2 with h' | h' <;> rw [h] at h' <;> cases h'
   induction ops generalizing s with
   | nil => rfl
   | cons op ops ih =>
     cases op with
-    | write lo les b => simp [run, write_closed s lo les b h, ih s h hc]
+    | write lo les b => simp [run, write_closed s lo les b hno, ih s h hc hno]
     | close =>
       have : close s = ([], s) := by simp [close, hc]
-      simp [run, this, ih s h hc]
+      simp [run, this, ih s h hc hno]
+    | accept p =>
+      have := (acceptOpen_spec s p).2.2.2.2 h
+      simp [run, this, ih s h hc hno]
 
 /-- the close-session request is the LAST thing a program queues: everything written before
     `Close` is in front of it, nothing behind it -/
@@ -304,10 +351,31 @@ theorem run_close_last (s : Sess) (ops : List Op) (pre post : List Seg) (g : Seg
         simp [close, hc, hf]
       rw [e] at h
       simp only at h
-      rw [run_closed _ ops (by simp [Sess.open]) rfl] at h
+      rw [run_closed _ ops rfl rfl] at h
       cases pre with
       | nil => simp at h; exact h.2
       | cons p pre => simp at h
+    | accept p =>
+      simp only [run] at h
+      obtain ⟨_, _, a3, a4, _⟩ := acceptOpen_spec s p
+      have hw : ∀ x ∈ (acceptOpen s p).1, x.kind ≠ .closeReq := by
+        intro x hx; rw [a3 x hx]; simp
+      have key : ∃ pre', pre = (acceptOpen s p).1 ++ pre' ∧ (run (acceptOpen s p).2 ops).1 = pre' ++ g :: post := by
+        generalize (acceptOpen s p).1 = ws at h hw
+        generalize (run (acceptOpen s p).2 ops).1 = rs at h
+        induction ws generalizing pre with
+        | nil => exact ⟨pre, by simp, by simpa using h⟩
+        | cons w ws ihw =>
+          cases pre with
+          | nil =>
+            simp only [List.cons_append, List.nil_append, List.cons.injEq] at h
+            exact absurd (h.1 ▸ hg) (hw w (by simp))
+          | cons q pre =>
+            simp only [List.cons_append, List.cons.injEq] at h
+            obtain ⟨pre', e1, e2⟩ := ihw pre (fun x hx => hw x (by simp [hx])) h.2
+            exact ⟨pre', by simp [h.1, e1], e2⟩
+      obtain ⟨pre', _, e2⟩ := key
+      exact ih _ pre' e2 (a4 hs)
 
 /-! ## Receiver -/
 
@@ -541,24 +609,6 @@ theorem read_all (s : Sess) (n : Nat) (hp : s.pending ≠ []) (hn : s.pending.le
 
 /-! ### Arrivals and reads in any interleaving -/
 
-inductive Ev where
-  | input (g : Seg)
-  | read (n : Nat)
-
-/-- run arrivals and `Read` calls in the given order; the byte strings the reads returned -/
-def runEv : Sess → List Ev → List Bytes × Sess
-  | s, [] => ([], s)
-  | s, .input g :: es => runEv (input s g).2 es
-  | s, .read n :: es =>
-    match read s n with
-    | (.data b, s') => let r := runEv s' es; (b :: r.1, r.2)
-    | (_, s') => runEv s' es
-
-def arrivals : List Ev → List Seg
-  | [] => []
-  | .input g :: es => g :: arrivals es
-  | .read _ :: es => arrivals es
-
 /-- **Every interleaving of arrivals and reads**: whatever the order in which in-order
     data-bearing segments arrive and `Read` is called with whatever buffer sizes, the bytes read so
     far followed by what is still pending are exactly the payloads that arrived, in order — nothing
@@ -764,7 +814,16 @@ theorem run_shape (s : Sess) (ops : List Op) (hs : s.open) :
         simp [close, hc, hf]
       refine ⟨[], [⟨.closeReq, s.nextSend, 0, none, []⟩], ?_, by simp, Or.inr ⟨_, rfl, rfl⟩⟩
       simp only [run, e]
-      rw [run_closed _ ops (by simp [Sess.open]) rfl]
+      rw [run_closed _ ops rfl rfl]
       rfl
+    | accept p =>
+      obtain ⟨_, _, a3, a4, _⟩ := acceptOpen_spec s p
+      obtain ⟨ds, tail, h1, h2, h3⟩ := ih _ (a4 hs)
+      refine ⟨(acceptOpen s p).1 ++ ds, tail, by simp only [run, h1, List.append_assoc], ?_, h3⟩
+      intro g hg
+      simp only [List.mem_append] at hg
+      rcases hg with hg | hg
+      · rw [a3 g hg]; simp [dataish]
+      · exact h2 g hg
 
 end Mieru.TcpSession
